@@ -1,4 +1,65 @@
 import Driver.Common
+import AnyioModel.Sync.Condition
 
-/-- placeholder driver: replies `unimplemented` to every request -/
-def main : IO Unit := Driver.serve () (fun s _ => (s, "unimplemented"))
+namespace Driver.Cond
+open AnyioModel.Sync.Condition
+open AnyioModel.Sync
+
+def outStr : Lock.Out → String
+  | .susp => "susp"
+  | .ret => "ret"
+  | .wouldBlock => "wouldblock"
+  | .runtimeError => "runtimeerror"
+  | .cancelled => "cancelled"
+  | .env => "env"
+
+def parseEv : List String → Option Ev
+  | ["acquire", t, pre] => do some (.acquire (← t.toNat?) (← Driver.parseBool pre))
+  | ["acquire_nowait", t] => do some (.acquireNowait (← t.toNat?))
+  | ["release", t] => do some (.release (← t.toNat?))
+  | ["wait", t, pre] => do some (.wait (← t.toNat?) (← Driver.parseBool pre))
+  | ["notify", t, n] => do some (.notify (← t.toNat?) (← n.toNat?))
+  | ["notify_all", t] => do some (.notifyAll (← t.toNat?))
+  | ["step", t] => do some (.step (← t.toNat?))
+  | ["fc", t] => do some (.fc (← t.toNat?))
+  | ["mc", t] => do some (.mc (← t.toNat?))
+  | _ => none
+
+/-- which branch of the model a transition took (for the coverage histogram) -/
+def cpcTag : CPc → String
+  | .none => "none"
+  | .acq => "acq"
+  | .waitPre => "waitPre"
+  | .waitPreMC => "waitPreMC"
+  | .evWait => "evWait"
+  | .evFC => "evFC"
+  | .evFCSet _ => "evFCSet"
+  | .evSet _ => "evSet"
+  | .evSetMC _ => "evSetMC"
+  | .reacq false => "reacq"
+  | .reacq true => "reacqExc"
+
+def handle (s : State) : List String → State × String
+  | ["new", f] =>
+    match Driver.parseBool f with
+    | some b => (init b, "ok")
+    | none => (s, "bad-op")
+  | ["obs"] =>
+    (s, s!"locked={Driver.bool01 s.lock.owner.isSome} owner={Driver.optNat s.lock.owner} lockwaiters={s.lock.waiters.length} waiting={s.waiters.length}")
+  | ["ghost"] =>
+    (s, s!"issued={s.issued} direct={s.consumedDirect} passed={s.consumedPassed} dropped={s.dropped} pending={s.notified.length}")
+  | ["tag", t] =>
+    match t.toNat? with
+    | some t => (s, cpcTag (s.cpc t))
+    | none => (s, "bad-op")
+  | ws =>
+    match parseEv ws with
+    | none => (s, "bad-op")
+    | some e =>
+      match step s e with
+      | none => (s, "DISABLED")
+      | some (s', o) => (s', outStr o)
+
+end Driver.Cond
+
+def main : IO Unit := Driver.serve (AnyioModel.Sync.Condition.init false) Driver.Cond.handle
